@@ -60,6 +60,7 @@ fn main() {
         "C13" => progmc::c13(thorough, replay),
         "C14" => crashmc::c14(thorough, replay),
         "C15" => parsemc::c15(thorough, replay),
+        "C17" => progmc::c17(thorough, replay),
         "C20" => valmc::c20(thorough, replay),
         _ => {
             eprintln!("no engine for {}", id);
